@@ -92,7 +92,7 @@ def run_scenario(run: Run, spec: dict, cls: str, semiring: str, fold: bool, opti
 
 def check(run: Run, tier: str, seed: int):
     rng = random.Random(f"C01-{seed}")
-    n = 160 if tier == "quick" else 1600
+    n = 320 if tier == "quick" else 1600
     combos_per = 3 if tier == "quick" else 12
     for i in range(n):
         cls, opts, semirings = CLASSES[i % len(CLASSES)]
